@@ -518,6 +518,13 @@ pub fn descriptor_of(spec: &WorkerSpec) -> ResourceDescriptor {
         .iter()
         .map(|r| match r.kind.as_str() {
             "range" => ResourceDescriptorItem::range(&r.name, 0, r.n - 1),
+            // a range that does not start at 0 (`--resource "gpus=range(1-3)"`): n indices from 1
+            "range1" => ResourceDescriptorItem::range(&r.name, 1, r.n),
+            // a list with labels that are not their positions
+            "list" => ResourceDescriptorItem {
+                name: r.name.clone(),
+                kind: ResourceDescriptorKind::list((0..r.n).map(|i| format!("dev{}", 7 - i as i32 * 2)).collect()).unwrap(),
+            },
             "sum" => ResourceDescriptorItem::sum(&r.name, r.n),
             "groups" => {
                 let mut next = 0u32;
